@@ -23,6 +23,9 @@ def check(chk):
     r55(chk, m)
     r56(chk, m)
     r57(chk, m)
+    from . import shared
+    shared.cache_rules(chk, m, 'R5.8')
+    shared.sign_rules(chk, m, 'R5.9')
     chk.decline('the values bound for concrete invocations (value-level)')
     chk.decline('the mandatory first-token loops of readInteger/readDecimal on a missing number, and '
                 'readKeyword dropping an already expanded element after a missing unit (non-conforming calls)')
